@@ -233,8 +233,20 @@ def run_case(inputs, output, sd, ssa, ops, tracked, orders, rec_order=None, rec_
         try:
             if tree.nslices != spec["nslices"]:
                 return "nslices wrong", f"nslices={tree.nslices}, product of sliced sizes={spec['nslices']}"
-            stats = tree.contract_stats()
             want = {"flops": spec["total_flops"], "write": spec["total_write"], "size": spec["max_size"]}
+            if not tracked:
+                # ask the individual accessors FIRST: on a tree that is not tracking yet each of them runs its
+                # own recomputation loop (after contract_stats() they would only read the tracked totals)
+                for nm, fn, w in (
+                    ("total_flops() asked first", tree.total_flops, want["flops"]),
+                    ("total_write() asked first", tree.total_write, want["write"]),
+                    ("max_size() asked first", tree.max_size, want["size"]),
+                ):
+                    got = fn()
+                    if got != w:
+                        return f"{nm} wrong", f"reported {got}, definition gives {w}"
+                fire("accessor asked first (own recomputation loop when untracked, unsliced) == definition")
+            stats = tree.contract_stats()
             for k in ("flops", "write", "size"):
                 if stats.get(k) != want[k]:
                     return f"contract_stats()['{k}'] wrong", f"reported {stats.get(k)}, definition gives {want[k]}"
@@ -297,9 +309,6 @@ def run_case(inputs, output, sd, ssa, ops, tracked, orders, rec_order=None, rec_
             out = tree.contract(arrays, order=rec_order, prefer_einsum=rec_pe, implementation=(rec, rec))
         except Exception as e:  # noqa: BLE001
             return "contract with recording implementation raised", f"{type(e).__name__}: {str(e)[:120]}"
-        want_shape = tuple((1 if any(ix == jx and v is not None for jx, v in ops) else sd[ix]) for ix in output)
-        if tuple(np.shape(out)) != want_shape:
-            return "result shape wrong", f"{np.shape(out)} vs {want_shape}"
         pair = [c for c in rec.calls if len(c[2]) == 2]
         single = [c for c in rec.calls if len(c[2]) == 1]
         ns = spec["nslices"]
@@ -323,6 +332,9 @@ def run_case(inputs, output, sd, ssa, ops, tracked, orders, rec_order=None, rec_
             if _prod(call[3]) not in {spec["size"][frozenset([i])] for i in range(n)}:
                 return "single-term result size is no leaf size", f"{call[1]}: {call[2]} -> {call[3]}"
         fire("pairwise steps == N-1 per slice")
+        want_shape = tuple((1 if any(ix == jx and v is not None for jx, v in ops) else sd[ix]) for ix in output)
+        if tuple(np.shape(out)) != want_shape:
+            return "result shape wrong", f"{np.shape(out)} vs {want_shape}"
     return None
 
 
